@@ -8,5 +8,5 @@ CONSTANTS
   FIX_LENGTH = FALSE
   SORT = "reverse"
   KnownDeviations = {"index-own-path-not-registered", "dirname-extension-stripped", "declared-length-0"}
-INVARIANT Emit
+INVARIANTS Refines Emit
 CHECK_DEADLOCK FALSE
